@@ -1469,7 +1469,7 @@ class Exec:
 
     def getattr_abstract(self, r, attr, st):
         base = r.ty.base if isinstance(r.ty, AbstractTy) else None
-        if base == "Reporter" and attr == "file_report":
+        if base == "Reporter" and attr in ("file_report", "flush", "close", "add_handler"):
             yield ValMethod(r, "file_report"), st
             return
         if base and base in self.repo.classes:
